@@ -112,7 +112,7 @@ var opsFor = map[string][]string{
 	"ring":  {"Write", "Write", "Write", "WriteString", "WriteByte", "Read", "Read", "ReadByte", "Peek", "Discard", "Bytes", "ReadFrom", "WriteTo", "Reset", "FillExact"},
 	"ering": {"Write", "Write", "Write", "WriteString", "WriteByte", "Read", "Read", "ReadByte", "Peek", "Discard", "Bytes", "ReadFrom", "WriteTo", "Reset", "Done", "FillExact"},
 	"ebuf":  {"Write", "Write", "Write", "Writev", "Writev", "Read", "Read", "Peek", "Peek", "Discard", "Discard", "ReadFrom", "WriteTo", "Reset", "Release"},
-	"llist": {"PushBack", "PushBack", "PushBack", "PushFront", "Append", "Pop", "Read", "Read", "Peek", "PeekWithBytes", "Discard", "Discard", "ReadFrom", "WriteTo", "Reset"},
+	"llist": {"PushBack", "PushBack", "PushBack", "PushFront", "Append", "Pop", "PopPushFront", "Read", "Read", "Peek", "PeekWithBytes", "Discard", "Discard", "ReadFrom", "WriteTo", "Reset"},
 }
 
 func targetsFor(prop string) []string {
@@ -161,6 +161,8 @@ func Generate(seed uint64, prop, tier string) *Plan {
 		switch op.K {
 		case "Write", "WriteString", "PushBack", "PushFront", "Append":
 			op.N = sizePick(r, around)
+		case "PopPushFront":
+			op.N = r.Intn(1 << 16)
 		case "Read", "Peek", "PeekWithBytes":
 			op.N = sizePick(r, around)
 			if op.K != "Read" && r.Chance(1, 6) {
